@@ -560,3 +560,235 @@ package resource_info
 //@   note log-line formatting (strings.Builder over (*Resource).String()); read-only, result only used as a log argument
 //@   pure
 //@ end
+
+// ---- added by helper "cache" ----
+// Snapshot construction (cluster_info.Snapshot): DRA claim indexing and the shared resource-vector layout.
+// Code-derived helper contracts (no property-derived clause here): nil-ness and frames only.
+
+//@ define claimsNonNil(cs []*resourceapi.ResourceClaim) bool = forall i int :: 0 <= i && i < len(cs) ==> cs[i] != nil
+//@ define claimMapNonNil(m map[string]*resourceapi.ResourceClaim) bool = forall k in m :: m[k] != nil
+//@ define podClaimsNonNil(m map[types.UID]map[types.UID]*resourceapi.ResourceClaim) bool = forall p in m :: forall c in m[p] :: m[p][c] != nil
+
+//@ func (k8s.io/apimachinery/pkg/types.NamespacedName).String
+//@   props C12 C10
+//@   trusted
+//@   note external (k8s.io/apimachinery/pkg/types): returns Namespace + "/" + Name; assumed read-only
+//@   pure
+//@ end
+
+//@ func ResourceClaimSliceToMap
+//@   props C10 C12
+//@   requires claimsNonNil(draResourceClaims)
+//@   fresh
+//@   loop 1
+//@     invariant 0 - 1 <= rangeindex && rangeindex < len(draResourceClaims)
+//@     invariant draClaimMap != nil && fresh(draClaimMap)
+//@     invariant claimMapNonNil(draClaimMap)
+//@   ensures result != nil && claimMapNonNil(result)
+//@ end
+
+//@ func addClaimToPodClaimMap
+//@   props C10 C12
+//@   requires claim != nil && podsToClaimsMap != nil
+//@   modifies podsToClaimsMap[podUid], podsToClaimsMap[podUid][*]
+//@   ensures old(podClaimsNonNil(podsToClaimsMap)) ==> podClaimsNonNil(podsToClaimsMap)
+//@   ensures podUid in podsToClaimsMap && podsToClaimsMap[podUid] != nil && (podsToClaimsMap[podUid] == old(podsToClaimsMap[podUid]) || fresh(podsToClaimsMap[podUid]))
+//@ end
+
+//@ func CalcClaimsToPodsBaseMap
+//@   props C10 C12
+//@   requires claimMapNonNil(draClaimsMap)
+//@   fresh
+//@   loop 1
+//@     invariant podsToClaimsMap != nil && fresh(podsToClaimsMap)
+//@     invariant podClaimsNonNil(podsToClaimsMap)
+//@     invariant forall p in podsToClaimsMap :: fresh(podsToClaimsMap[p])
+//@     invariant forall m map[types.UID]*resourceapi.ResourceClaim :: m != nil && old(allocated(m)) ==> dom(m) == old(dom(m))
+//@     invariant forall m map[types.UID]*resourceapi.ResourceClaim, k types.UID :: m != nil && old(allocated(m)) && old(k in m) ==> m[k] == old(m[k])
+//@     invariant forall m map[types.UID]map[types.UID]*resourceapi.ResourceClaim :: m != nil && old(allocated(m)) ==> dom(m) == old(dom(m))
+//@     invariant forall m map[types.UID]map[types.UID]*resourceapi.ResourceClaim, k types.UID :: m != nil && old(allocated(m)) && old(k in m) ==> m[k] == old(m[k])
+//@   loop 2
+//@     invariant 0 - 1 <= rangeindex && rangeindex < len(claim.OwnerReferences)
+//@     invariant podsToClaimsMap != nil && fresh(podsToClaimsMap)
+//@     invariant podClaimsNonNil(podsToClaimsMap)
+//@     invariant forall p in podsToClaimsMap :: fresh(podsToClaimsMap[p])
+//@     invariant forall m map[types.UID]*resourceapi.ResourceClaim :: m != nil && old(allocated(m)) ==> dom(m) == old(dom(m))
+//@     invariant forall m map[types.UID]*resourceapi.ResourceClaim, k types.UID :: m != nil && old(allocated(m)) && old(k in m) ==> m[k] == old(m[k])
+//@     invariant forall m map[types.UID]map[types.UID]*resourceapi.ResourceClaim :: m != nil && old(allocated(m)) ==> dom(m) == old(dom(m))
+//@     invariant forall m map[types.UID]map[types.UID]*resourceapi.ResourceClaim, k types.UID :: m != nil && old(allocated(m)) && old(k in m) ==> m[k] == old(m[k])
+//@   loop 3
+//@     invariant 0 - 1 <= rangeindex && rangeindex < len(claim.Status.ReservedFor)
+//@     invariant podsToClaimsMap != nil && fresh(podsToClaimsMap)
+//@     invariant podClaimsNonNil(podsToClaimsMap)
+//@     invariant forall p in podsToClaimsMap :: fresh(podsToClaimsMap[p])
+//@     invariant forall m map[types.UID]*resourceapi.ResourceClaim :: m != nil && old(allocated(m)) ==> dom(m) == old(dom(m))
+//@     invariant forall m map[types.UID]*resourceapi.ResourceClaim, k types.UID :: m != nil && old(allocated(m)) && old(k in m) ==> m[k] == old(m[k])
+//@     invariant forall m map[types.UID]map[types.UID]*resourceapi.ResourceClaim :: m != nil && old(allocated(m)) ==> dom(m) == old(dom(m))
+//@     invariant forall m map[types.UID]map[types.UID]*resourceapi.ResourceClaim, k types.UID :: m != nil && old(allocated(m)) && old(k in m) ==> m[k] == old(m[k])
+//@   ensures result != nil && podClaimsNonNil(result)
+//@ end
+
+//@ func GetDraPodClaims
+//@   props C10 C12
+//@   requires pod != nil && podsToClaimsMap != nil && claimMapNonNil(draClaimMap) && podClaimsNonNil(podsToClaimsMap)
+//@   modifies podsToClaimsMap[pod.UID], podsToClaimsMap[pod.UID][*]
+//@   loop 1
+//@     invariant 0 - 1 <= rangeindex && rangeindex < len(pod.Spec.ResourceClaims)
+//@     invariant podClaimsNonNil(podsToClaimsMap)
+//@   loop 2
+//@     invariant claimsNonNil(draPodClaims)
+//@     invariant podClaimsNonNil(podsToClaimsMap)
+//@   ensures claimsNonNil(result)
+//@   ensures podClaimsNonNil(podsToClaimsMap)
+//@ end
+
+// ---- helper "cache": quantities of a v1.ResourceList (C14 C01 establish: node Idle == Allocatable at construction) ----
+// resource.Quantity is an opaque exact real in the engine (A-QTY). Its three accessors have no body in the loaded
+// program; they are assumed to be read-only deterministic functions of the quantity (named, not defined).
+//@ declare qIsZero(q real) bool
+//@ declare qValue(q real) int
+//@ declare qMilli(q real) int
+
+//@ func (*k8s.io/apimachinery/pkg/api/resource.Quantity).IsZero
+//@   props C14 C01 C10
+//@   trusted
+//@   note library method without body in the loaded program; Quantity modelled as an exact real (A-QTY); assumed read-only and a deterministic function of the quantity
+//@   requires recv != nil
+//@   pure
+//@   ensures result == qIsZero(*recv)
+//@ end
+//@ func (*k8s.io/apimachinery/pkg/api/resource.Quantity).Value
+//@   props C14 C01 C10
+//@   trusted
+//@   note library method without body in the loaded program (rounds up to an int64); assumed read-only and a deterministic function of the quantity
+//@   requires recv != nil
+//@   pure
+//@   ensures result == qValue(*recv)
+//@ end
+//@ func (*k8s.io/apimachinery/pkg/api/resource.Quantity).MilliValue
+//@   props C14 C01 C10
+//@   trusted
+//@   note library method without body in the loaded program (value x 1000, rounded up); assumed read-only and a deterministic function of the quantity
+//@   requires recv != nil
+//@   pure
+//@   ensures result == qMilli(*recv)
+//@ end
+
+// k8s resource-name classes used by k8s_internal.IsScalarResourceName (library predicates on the name, no body loaded)
+//@ declare extendedName(n string) bool
+//@ declare hugePageName(n string) bool
+//@ declare prefixedNativeName(n string) bool
+//@ declare attachableVolumeName(n string) bool
+//@ func k8s.io/kubernetes/pkg/apis/core/v1/helper.IsExtendedResourceName
+//@   props C14 C01 C10
+//@   trusted
+//@   note k8s library predicate on the resource name; assumed pure and deterministic
+//@   pure
+//@   ensures result == extendedName(string(arg0))
+//@ end
+//@ func k8s.io/kubernetes/pkg/apis/core/v1/helper.IsHugePageResourceName
+//@   props C14 C01 C10
+//@   trusted
+//@   note k8s library predicate on the resource name; assumed pure and deterministic
+//@   pure
+//@   ensures result == hugePageName(string(arg0))
+//@ end
+//@ func k8s.io/kubernetes/pkg/apis/core/v1/helper.IsPrefixedNativeResource
+//@   props C14 C01 C10
+//@   trusted
+//@   note k8s library predicate on the resource name; assumed pure and deterministic
+//@   pure
+//@   ensures result == prefixedNativeName(string(arg0))
+//@ end
+//@ func k8s.io/kubernetes/pkg/apis/core/v1/helper.IsAttachableVolumeResourceName
+//@   props C14 C01 C10
+//@   trusted
+//@   note k8s library predicate on the resource name; assumed pure and deterministic
+//@   pure
+//@   ensures result == attachableVolumeName(string(arg0))
+//@ end
+
+// How ResourceFromResourceList reads one entry of a resource list (zero quantities are skipped):
+//@ define rlHas(rl v1.ResourceList, k v1.ResourceName) bool = k in rl && !qIsZero(rl[k])
+//@ define rlValue(rl v1.ResourceList, k v1.ResourceName) int = ite(rlHas(rl, k), qValue(rl[k]), 0)
+//@ define rlMilli(rl v1.ResourceList, k v1.ResourceName) int = ite(rlHas(rl, k), qMilli(rl[k]), 0)
+// the names that are not scalar resources of a Resource (cpu, memory, the two whole-GPU names)
+//@ define rlSpecial(k v1.ResourceName) bool = k == v1.ResourceCPU || k == v1.ResourceMemory || k == GPUResourceName || k == amdGpuResourceName
+// scalar resources counted by Value(): pods, MIG profiles, (ephemeral) storage; by MilliValue(): the other k8s scalar names
+//@ define rlByValue(k v1.ResourceName) bool = !rlSpecial(k) && (k == v1.ResourcePods || IsMigResource(k) || k == v1.ResourceEphemeralStorage || k == v1.ResourceStorage)
+//@ define rlByMilli(k v1.ResourceName) bool = !rlSpecial(k) && !rlByValue(k) && (extendedName(string(k)) || hugePageName(string(k)) || prefixedNativeName(string(k)) || attachableVolumeName(string(k)))
+//@ define rlScalar(rl v1.ResourceList, k v1.ResourceName) int = ite(rlByValue(k), rlValue(rl, k), ite(rlByMilli(k), rlMilli(rl, k), 0))
+//@ define rlScalarHas(rl v1.ResourceList, k v1.ResourceName) bool = rlHas(rl, k) && (rlByValue(k) || rlByMilli(k))
+
+// C14 "what the scheduler believes about each node (idle, used ... resources) equals the value recomputed from
+// scratch": the Resource built from a resource list is a FUNCTION of the list (so two builds from the same list -
+// NodeInfo.Idle and NodeInfo.Allocatable - agree field by field), with cpu in milli-units, memory and GPUs in units.
+//@ func ResourceFromResourceList
+//@   props C14 C01 C10
+//@   fresh
+//@   loop 1
+//@     invariant r != nil && fresh(r) && r.scalarResources != nil && fresh(r.scalarResources)
+//@     invariant forall k in visited :: k in rList
+//@     invariant r.milliCpu == ite(v1.ResourceCPU in visited, real(rlMilli(rList, v1.ResourceCPU)), 0.0)
+//@     invariant r.memory == ite(v1.ResourceMemory in visited, real(rlValue(rList, v1.ResourceMemory)), 0.0)
+//@     invariant r.gpus == ite(GPUResourceName in visited, real(rlValue(rList, GPUResourceName)), 0.0) + ite(amdGpuResourceName in visited, real(rlValue(rList, amdGpuResourceName)), 0.0)
+//@     invariant forall k v1.ResourceName :: r.scalarResources[k] == ite(k in visited, rlScalar(rList, k), 0)
+//@     invariant forall k v1.ResourceName :: k in r.scalarResources <==> k in visited && rlScalarHas(rList, k)
+//@   ensures [cpuMem] result.milliCpu == real(rlMilli(rList, v1.ResourceCPU)) && result.memory == real(rlValue(rList, v1.ResourceMemory))
+//@   ensures [gpus] result.gpus == real(rlValue(rList, GPUResourceName)) + real(rlValue(rList, amdGpuResourceName))
+//@   ensures [scalars] forall k v1.ResourceName :: result.scalarResources[k] == rlScalar(rList, k)
+//@   ensures [scalarDom] forall k v1.ResourceName :: k in result.scalarResources <==> rlScalarHas(rList, k)
+//@   ensures [ownMap] result.scalarResources != nil && fresh(result.scalarResources)
+//@ end
+
+// ---- helper "cache": the shared resource-vector layout while the snapshot is being built ----
+// Data invariant of a ResourceVectorMap (needed for no-panic of every `vec[idx]` with idx from GetIndex): the index map
+// exists and every index it holds addresses a name of the list.  The layout only ever GROWS (AddResource appends), so
+// a vector made earlier may be shorter than the layout (readers use the bounds-checked Get/Set).
+//@ define vmWF(m *ResourceVectorMap) bool = m != nil && m.namesToIndex != nil && (forall n in m.namesToIndex :: 0 <= m.namesToIndex[n] && m.namesToIndex[n] < len(m.resourceNames))
+
+//@ func (*ResourceVectorMap).AddResource
+//@   props C10 C14
+//@   requires vmWF(m)
+//@   modifies m.namesToIndex[*], m.resourceNames
+//@   ensures [wf] vmWF(m)
+//@   ensures [grows] len(m.resourceNames) >= old(len(m.resourceNames)) && (forall n string :: old(n in m.namesToIndex) ==> n in m.namesToIndex && m.namesToIndex[n] == old(m.namesToIndex[n]))
+//@   ensures [added] normalizeResourceName(resourceName) in m.namesToIndex
+//@ end
+
+//@ func (*ResourceVectorMap).AddResourceList
+//@   props C10 C14
+//@   requires vmWF(m)
+//@   modifies m.namesToIndex[*], m.resourceNames
+//@   loop 1
+//@     invariant vmWF(m)
+//@     invariant len(m.resourceNames) >= old(len(m.resourceNames)) && (forall n string :: old(n in m.namesToIndex) ==> n in m.namesToIndex && m.namesToIndex[n] == old(m.namesToIndex[n]))
+//@   ensures [wf] vmWF(m)
+//@   ensures [grows] len(m.resourceNames) >= old(len(m.resourceNames)) && (forall n string :: old(n in m.namesToIndex) ==> n in m.namesToIndex && m.namesToIndex[n] == old(m.namesToIndex[n]))
+//@ end
+
+//@ func NewResourceVectorMap
+//@   props C10 C14
+//@   fresh
+//@   loop 1 unroll 4
+//@   ensures [wf] vmWF(result) && fresh(result.namesToIndex)
+//@   ensures [gpuSlot] constants.GpuResource in result.namesToIndex
+//@ end
+
+// vector of a resource list in the layout of indexMap: one slot per name of the layout AT THAT MOMENT
+//@ func NewResourceVectorFromResourceList
+//@   props C10 C14
+//@   requires vmWF(indexMap)
+//@   fresh
+//@   loop 1
+//@     invariant len(vec) == len(indexMap.resourceNames) && freshArray(vec)
+//@     invariant forall p *float64 :: p != nil && !fresh(p) ==> *p == old(*p)
+//@   ensures len(result) == len(indexMap.resourceNames)
+//@ end
+
+//@ func (ResourceVector).Clone
+//@   props C10 C14
+//@   fresh
+//@   ensures len(result) == len(v)
+//@   ensures forall i int :: 0 <= i && i < len(v) ==> result[i] == v[i]
+//@ end
